@@ -42,7 +42,7 @@ func replay(sub string, raw json.RawMessage) ([]h.Failure, error) {
 // (a) symbol table, stateful, through the public API of runtime.Scope
 
 type scopeOp struct {
-	Op   string `json:"op"` // begin end declare const set get
+	Op   string `json:"op"` // begin end declare const set get; deepen = Val empty nested blocks at once
 	Name string `json:"name,omitempty"`
 	Val  int    `json:"val,omitempty"`
 }
@@ -67,6 +67,8 @@ func runScopeOps(ops []scopeOp) []h.Failure {
 	kind, msg, site := h.Guard(func() {
 		sp := r.NewScope()
 		model := []map[string]*mbind{{}}
+		// a nil entry with runs[i] = k stands for k nested blocks without declarations
+		runs := []int{1}
 		lookup := func(n string) *mbind {
 			for i := len(model) - 1; i >= 0; i-- {
 				if b, ok := model[i][n]; ok {
@@ -85,18 +87,43 @@ func runScopeOps(ops []scopeOp) []h.Failure {
 			case "begin":
 				sp.BeginScope()
 				model = append(model, map[string]*mbind{})
+				runs = append(runs, 1)
+			case "deepen":
+				if op.Val <= 0 {
+					continue
+				}
+				for i := 0; i < op.Val; i++ {
+					sp.BeginScope()
+				}
+				model = append(model, nil)
+				runs = append(runs, op.Val)
 			case "end":
 				if len(model) == 1 {
 					continue
 				}
 				sp.EndScope()
-				model = model[:len(model)-1]
+				if runs[len(runs)-1] > 1 {
+					runs[len(runs)-1]--
+				} else {
+					model = model[:len(model)-1]
+					runs = runs[:len(runs)-1]
+				}
 			case "declare", "const":
 				var err error
 				if op.Op == "const" {
 					err = sp.DeclareConstValue(op.Name, value.NewNumber(float64(op.Val)))
 				} else {
 					err = sp.DeclareValue(op.Name, value.NewNumber(float64(op.Val)))
+				}
+				if model[len(model)-1] == nil {
+					// the innermost of a run of empty blocks gets its own table
+					if runs[len(runs)-1] > 1 {
+						runs[len(runs)-1]--
+						model = append(model, map[string]*mbind{})
+						runs = append(runs, 1)
+					} else {
+						model[len(model)-1] = map[string]*mbind{}
+					}
 				}
 				cur := model[len(model)-1]
 				if _, dup := cur[op.Name]; dup {
@@ -164,6 +191,9 @@ func runScopeOps(ops []scopeOp) []h.Failure {
 
 var scopeNames = []string{"a", "b", "c", "d"}
 
+// block depths at which a table of fixed size or a narrow counter would end
+var scopeDepths = []int{64, 100, 128, 256, 512, 1000, 1024, 2048, 4096, 8192, 10000, 16384, 32768, 65536, 100000}
+
 // poolOf - the names whose resolution is compared after every step: the standard pool, every
 // name the history uses and, for each of those, its hash twins (zn.HashTwins) - whether or
 // not the history ever binds them
@@ -208,6 +238,16 @@ func TestScopeMachine(t *testing.T) {
 		var ops []scopeOp
 		depth := 0
 		val := 0
+		// one history in five works at a block depth next to a power of two or ten (recursion
+		// reaches such depths): the blocks opened before the first operation hold nothing
+		deep := ""
+		if rapid.IntRange(0, 4).Draw(t, "deep") == 0 {
+			base := rapid.SampledFrom(scopeDepths).Draw(t, "depth")
+			d := base + rapid.IntRange(-3, 2).Draw(t, "off")
+			ops = append(ops, scopeOp{Op: "deepen", Val: d})
+			depth = d
+			deep = fmt.Sprintf("starts-at-depth-about-%d", base)
+		}
 		shadow2, rejectedThenRead := false, false
 		declDepth := map[string][]int{}
 		pendingReject := false
@@ -263,6 +303,9 @@ func TestScopeMachine(t *testing.T) {
 		}
 		if twins != "" {
 			labels = append(labels, twins)
+		}
+		if deep != "" {
+			labels = append(labels, deep)
 		}
 		h.R.Case(t, "scope", string(key), ops, labels, shadow2 || rejectedThenRead, runScopeOps(ops))
 	})
